@@ -188,7 +188,7 @@ pub fn check_nodeinfo(ctx: &Ctx, d: &NiDesc) -> Vec<Viol> {
         ));
     }
     // decode(encode(x)) == normalise(x)
-    match catch(|| NodeInfo::decode(Cursor::new(&bytes[..]))) {
+    match crate::engine::hang_guard("nodeinfo-decode", &bytes, &[], hang_case, || catch(|| NodeInfo::decode(Cursor::new(&bytes[..])))) {
         Err(p) => out.push(Viol::new(format!("nodeinfo-decode-{}", p.sig()), format!("decode panicked: {}", p.msg), cj())),
         Ok(Err(e)) => out.push(Viol::new("nodeinfo-roundtrip-rejected", format!("decode(encode(x)) failed: {}", e), cj())),
         Ok(Ok(back)) => {
@@ -204,7 +204,7 @@ pub fn check_nodeinfo(ctx: &Ctx, d: &NiDesc) -> Vec<Viol> {
     // unknown parts are skipped
     if !d.unknown.is_empty() {
         let ub = ref_encode_nodeinfo(d, true);
-        match catch(|| NodeInfo::decode(Cursor::new(&ub[..]))) {
+        match crate::engine::hang_guard("nodeinfo-decode", &ub, &[], hang_case, || catch(|| NodeInfo::decode(Cursor::new(&ub[..])))) {
             Err(p) => out.push(Viol::new(format!("nodeinfo-decode-{}", p.sig()), format!("decode panicked: {}", p.msg), cj())),
             Ok(Err(e)) => out.push(Viol::new(
                 "nodeinfo-unknown-part-not-skipped",
@@ -234,10 +234,20 @@ pub fn check_nodeinfo(ctx: &Ctx, d: &NiDesc) -> Vec<Viol> {
 }
 
 /// decoder totality on arbitrary bytes (value or error; no panic, no oversized allocation)
+fn hang_case(kind: &str, bytes: &[u8], aux: &[u8]) -> Value {
+    json!({"kind": "decode", "decoder": kind.strip_suffix("-decode").unwrap_or(kind), "bytes": hex(bytes), "trusted": aux.chunks(32).map(hex).collect::<Vec<_>>()})
+}
+
 pub fn check_decode_bytes(ctx: &Ctx, which: &str, bytes: &[u8], trusted: &[[u8; 32]]) -> Vec<Viol> {
     ctx.eval();
     let cj = || json!({"kind": "decode", "decoder": which, "bytes": hex(bytes), "trusted": trusted.iter().map(|k| hex(k)).collect::<Vec<_>>()});
-    let (r, max) = with_alloc_watch(|| {
+    let kind: &'static str = match which {
+        "nodeinfo" => "nodeinfo-decode",
+        "rotation" => "rotation-decode",
+        _ => "init-decode",
+    };
+    let aux: Vec<u8> = trusted.iter().flat_map(|k| k.iter().copied()).collect();
+    let (r, max) = crate::engine::hang_guard(kind, bytes, &aux, hang_case, || with_alloc_watch(|| {
         catch(|| match which {
             "nodeinfo" => NodeInfo::decode(Cursor::new(bytes)).is_ok(),
             "rotation" => RotationMessage::read_from(Cursor::new(bytes)).is_ok(),
@@ -251,7 +261,7 @@ pub fn check_decode_bytes(ctx: &Ctx, which: &str, bytes: &[u8], trusted: &[[u8; 
                 a || b
             }
         })
-    });
+    }));
     let mut out = vec![];
     match r {
         Err(p) => out.push(Viol::new(
@@ -451,7 +461,7 @@ pub fn check_init(ctx: &Ctx, d: &InitDesc) -> Vec<Viol> {
     let check_back = |wire: &[u8], label: &str, out: &mut Vec<Viol>| {
         let mut buf = vec![0x5au8; wire.len() + 65536];
         buf[..wire.len()].copy_from_slice(wire);
-        match catch(|| InitMsg::verif_read_from(&buf, &[[7u8; 32], pk])) {
+        match crate::engine::hang_guard("init-decode", &buf, &pk, hang_case, || catch(|| InitMsg::verif_read_from(&buf, &[[7u8; 32], pk]))) {
             Err(p) => out.push(Viol::new(format!("init-decode-{}", p.sig()), format!("read_from panicked: {}", p.msg), cj())),
             Ok(Err(e)) => out.push(Viol::new(format!("init-{}-rejected", label), format!("{}: genuine message rejected: {}", label, e), cj())),
             Ok(Ok((back, key))) => {
